@@ -31,6 +31,8 @@ def setup():
 def own():
     setup()
     idx = json.load(open("/verif/seeded/own/INDEX.json"))
+    if os.path.exists("/verif/seeded/own/EXTRA_INDEX.json"):
+        idx.update(json.load(open("/verif/seeded/own/EXTRA_INDEX.json")))
     results = {}
     if os.path.exists("/verif/seeded/own/RESULTS.json"):
         results = json.load(open("/verif/seeded/own/RESULTS.json"))
